@@ -70,6 +70,8 @@ class RefBus:
             if o[2] == "rom":
                 return o[3][a]
             if o[2] == "romimg":
+                if a - o[0] >= self.cfg.get("rom_len", 1 << 30):
+                    return None              # window beyond the loaded image: initial contents not documented (still read-only)
                 return self.cfg["rom_byte"](a)
             if o[2] in ("card", "cardro"):
                 return o[3].get(a, self._card_default(o, a))
